@@ -34,3 +34,43 @@ package store
 //@     invariant[C18:i-range] 0 <= idx1 && idx1 < len(backends) && b == backends[idx1] && -1 <= idx && idx < max(len(b.PathPrefixes), 1) && (len(b.PathPrefixes) == 0 ==> idx == -1)
 //@     invariant[C18:i-none] closestMatch == "" <==> noneSeen(path, backends, idx1, idx)
 //@     invariant[C18:i-best] closestMatch != "" ==> bestSeen(path, backends, idx1, idx, closestMatch, longestMatchingPath)
+
+// ---- blob split / join (C19) ----
+// A blob is stored as an inline part of at most 1,000,000 bytes plus numbered parts of at most 1,000,000 bytes each;
+// part i is the i-th 1,000,000-byte window of the remainder and is stored under "<name>.part<i>".
+
+//@ func writeBlobParts props(C19,C07)
+//@   ghost puts int = 0
+//@   call datastore.NewKey
+//@     assert[C19:part-key-is-name-dot-part-i] arg1 == "blobParts" && arg2 == sprintf("%s.part%d", blobName, i) && arg2 == ID
+//@   send errs
+//@     assert[C19:only-errors-are-queued] arg1 != nil
+//@   recv errs
+//@     assume ret0 != nil
+//@   go writeBlobParts$1
+//@     assert[C19:part-i-is-the-ith-window] 0 <= i && p != nil && p.ID == ID && keyName(k) == ID && keyKind(k) == "blobParts" && base(p.Bytes) == base(bytes) && off(p.Bytes) == off(bytes) + i * 1000000
+//@     |   && len(p.Bytes) == min(1000000, len(bytes) - i * 1000000) && puts == i
+//@     do puts = puts + 1
+//@   ensures[C19:one-part-per-window-in-order] r1 == nil ==> len(r0) == len(bytes) / 1000000 + 1 && puts == len(r0) && forall(j, 0, len(r0), r0[j] == sprintf("%s.part%d", blobName, j))
+//@   ensures[C19:no-names-on-error] r1 != nil ==> len(r0) == 0
+//@   loop 1
+//@     invariant[C19:split-progress] 0 <= i && i <= partCount && partCount == len(bytes) / 1000000 + 1 && len(partNames) == i && puts == i && errs != nil && !closed(errs)
+//@     invariant[C19:names-in-order] forall(j, 0, i, partNames[j] == sprintf("%s.part%d", blobName, j))
+
+//@ func newBlob props(C19,C07)
+//@   call writeBlobParts
+//@     assert[C19:remainder-goes-to-parts] base(arg1) == base(bytes) && off(arg1) == off(bytes) + 1000000 && len(arg1) == len(bytes) - 1000000 && arg2 == blobName
+//@   ensures[C19:small-blob-inline] r1 == nil && len(bytes) < 1000000 ==> r0 != nil && r0.Inlined == bytes && len(r0.Parts) == 0
+//@   ensures[C19:large-blob-split] r1 == nil && len(bytes) >= 1000000 ==> r0 != nil && base(r0.Inlined) == base(bytes) && off(r0.Inlined) == off(bytes) && len(r0.Inlined) == 1000000
+//@   |   && len(r0.Parts) == (len(bytes) - 1000000) / 1000000 + 1 && forall(j, 0, len(r0.Parts), r0.Parts[j] == sprintf("%s.part%d", blobName, j))
+
+//@ func (*blob).read props(C19,C07)
+//@   requires bp != nil
+//@   ghost fetched int = 0
+//@   call datastore.GetMulti
+//@     assert[C19:fetch-parts-in-listed-order] fetched == 0 && len(arg1) == len(bp.Parts) && len(parts) == len(bp.Parts) && forall(j, 0, len(bp.Parts), keyKind(arg1[j]) == "blobParts" && keyName(arg1[j]) == bp.Parts[j])
+//@     assume forall(j, 0, len(parts), parts[j] != nil)
+//@     do fetched = fetched + 1
+//@   ensures[C19:inline-only] len(old(bp.Parts)) == 0 ==> r1 == nil && r0 == old(bp.Inlined)
+//@   loop 1
+//@     invariant[C19:keys-in-order] len(keys) == idx + 1 && len(parts) == idx + 1 && fetched == 0 && forall(j, 0, idx + 1, keyKind(keys[j]) == "blobParts" && keyName(keys[j]) == bp.Parts[j])
